@@ -5,6 +5,7 @@
 // (3) the token-type specific check (expected key for an allowed peer, invite signature for an invitation).
 #![allow(unused_imports, unused_variables, dead_code, unused_mut, non_snake_case)]
 use vstd::prelude::*;
+use std::collections::{HashMap, HashSet, VecDeque};   // the std collections a change to the extracted code may reach for
 use vstd::std_specs::cmp::PartialEqSpec;
 use std::sync::Arc;
 verus! {
